@@ -21,11 +21,14 @@ type NRule struct {
 	Disabled bool
 	Scope    string
 	Proto    string
+	SrcExcl  bool
+	DstExcl  bool
 }
 
 type NGroup struct {
-	ID  string
-	IPs []string
+	ID     string
+	IPs    []string
+	ExprID string // device only: id of the single expression ("" = "id")
 }
 
 type NSvc struct {
@@ -58,7 +61,7 @@ func (c *NConf) clone() *NConf {
 		n.Policies = append(n.Policies, NPolicy{p.ID, append([]NRule(nil), p.Rules...)})
 	}
 	for _, g := range c.Groups {
-		n.Groups = append(n.Groups, NGroup{g.ID, append([]string(nil), g.IPs...)})
+		n.Groups = append(n.Groups, NGroup{g.ID, append([]string(nil), g.IPs...), g.ExprID})
 	}
 	n.Services = append(n.Services, c.Services...)
 	return n
@@ -101,6 +104,12 @@ func genNRule(t *tape.Tape, c *NConf, id, scope string) NRule {
 	r.Logged = t.Next(4) == 0
 	if t.Next(6) == 0 {
 		r.Tag = "T" + fmt.Sprint(t.Next(3))
+	}
+	if t.Next(8) == 0 {
+		r.SrcExcl = r.Src != "ANY"
+	}
+	if t.Next(10) == 0 {
+		r.DstExcl = r.Dst != "ANY"
 	}
 	return r
 }
@@ -187,7 +196,7 @@ func DeriveNsxDevice(t *tape.Tape, b *NConf) (*NConf, []string) {
 		return false
 	}
 	for n := t.Next(7); n > 0; n-- {
-		switch t.Next(13) {
+		switch t.Next(16) {
 		case 0:
 			if len(a.Policies) > 0 {
 				p := &a.Policies[t.Next(len(a.Policies))]
@@ -263,7 +272,7 @@ func DeriveNsxDevice(t *tape.Tape, b *NConf) (*NConf, []string) {
 				g := a.Groups[t.Next(len(a.Groups))]
 				nn := g.ID + "-copy"
 				if !hasGroup(nn) {
-					a.Groups = append(a.Groups, NGroup{nn, append([]string(nil), g.IPs...)})
+					a.Groups = append(a.Groups, NGroup{ID: nn, IPs: append([]string(nil), g.IPs...)})
 					used := false
 					for pi := range a.Policies {
 						for ri := range a.Policies[pi].Rules {
@@ -294,7 +303,7 @@ func DeriveNsxDevice(t *tape.Tape, b *NConf) (*NConf, []string) {
 				a.Services = append(a.Services, NSvc{"Netspoc-tcp_9999", "TCP", "9999"})
 			}
 			if !hasGroup("Netspoc-gold") {
-				a.Groups = append(a.Groups, NGroup{"Netspoc-gold", []string{"10.66.0.1"}})
+				a.Groups = append(a.Groups, NGroup{ID: "Netspoc-gold", IPs: []string{"10.66.0.1"}})
 			}
 			ops = append(ops, "left-over Netspoc objects on device")
 		case 9: // action / sequence number of a rule differs
@@ -339,6 +348,47 @@ func DeriveNsxDevice(t *tape.Tape, b *NConf) (*NConf, []string) {
 					ops = append(ops, "destination of rule "+p.ID+"/"+r.ID+" differs on device")
 				}
 			}
+		case 13: // exclusion flag of a rule differs
+			if len(a.Policies) > 0 {
+				p := &a.Policies[t.Next(len(a.Policies))]
+				if len(p.Rules) > 0 {
+					r := &p.Rules[t.Next(len(p.Rules))]
+					if t.Next(2) == 0 && r.Src != "ANY" {
+						r.SrcExcl = !r.SrcExcl
+						ops = append(ops, "sources_excluded of rule "+p.ID+"/"+r.ID+" differs on device")
+					} else if r.Dst != "ANY" {
+						r.DstExcl = !r.DstExcl
+						ops = append(ops, "destinations_excluded of rule "+p.ID+"/"+r.ID+" differs on device")
+					}
+				}
+			}
+		case 14, 15: // name shuffle: a group of the target is unknown on the device and its
+			// id (and id-1, id-2) is taken by other groups that are in use
+			if len(a.Groups) >= 2 {
+				ti := t.Next(len(a.Groups))
+				tg := a.Groups[ti].ID
+				// remove the rules that use it and the group itself
+				for pi := range a.Policies {
+					var keep []NRule
+					for _, r := range a.Policies[pi].Rules {
+						if r.Src != NGrp+tg && r.Dst != NGrp+tg {
+							keep = append(keep, r)
+						}
+					}
+					a.Policies[pi].Rules = keep
+				}
+				a.Groups = append(a.Groups[:ti:ti], a.Groups[ti+1:]...)
+				names := []string{tg, tg + "-1", tg + "-2"}
+				k := 0
+				for i := range a.Groups {
+					if k < len(names) && t.Next(3) != 0 && !hasGroup(names[k]) && !strings.HasPrefix(a.Groups[i].ID, tg) {
+						old := a.Groups[i].ID
+						rename(old, names[k])
+						ops = append(ops, "group "+old+" is "+names[k]+" on device; "+tg+" itself unknown there")
+						k++
+					}
+				}
+			}
 		case 12: // rule order on device differs (the manager returns them in another order)
 			if len(a.Policies) > 0 {
 				p := &a.Policies[t.Next(len(a.Policies))]
@@ -349,6 +399,14 @@ func DeriveNsxDevice(t *tape.Tape, b *NConf) (*NConf, []string) {
 				}
 			}
 		}
+	}
+	if t.Next(3) == 0 {
+		for i := range a.Groups {
+			if t.Next(2) == 0 {
+				a.Groups[i].ExprID = fmt.Sprintf("e-%d", 4711+i)
+			}
+		}
+		ops = append(ops, "expression ids assigned by the manager")
 	}
 	for pi := range a.Policies {
 		seen := map[string]bool{}
@@ -382,6 +440,12 @@ func (r NRule) JSON(withID bool) map[string]any {
 	if r.Disabled {
 		m["disabled"] = true
 	}
+	if r.SrcExcl {
+		m["sources_excluded"] = true
+	}
+	if r.DstExcl {
+		m["destinations_excluded"] = true
+	}
 	return m
 }
 
@@ -390,7 +454,11 @@ func (g NGroup) JSON() map[string]any {
 	for i, x := range g.IPs {
 		l[i] = x
 	}
-	return map[string]any{"id": g.ID, "expression": []any{map[string]any{"id": "id", "resource_type": "IPAddressExpression", "ip_addresses": l}}}
+	eid := g.ExprID
+	if eid == "" {
+		eid = "id"
+	}
+	return map[string]any{"id": g.ID, "expression": []any{map[string]any{"id": eid, "resource_type": "IPAddressExpression", "ip_addresses": l}}}
 }
 
 func (s NSvc) JSON() map[string]any {
